@@ -39,7 +39,7 @@ fn env_seed() -> u64 {
     std::env::var("VERIF_SEED").ok().and_then(|s| s.trim().parse::<u64>().ok()).unwrap_or(1)
 }
 
-const ALL_STRATA: &str = "crash,preempt,long,random";
+const ALL_STRATA: &str = "crash,preempt,siblings,long,random";
 
 /// Commands that execute the code under test (through the fork server).
 const SIM_CMDS: [&str; 7] = ["child", "solo-slice", "mkreplay", "replay-inner", "solo", "forkbench", "hashes"];
